@@ -109,12 +109,20 @@ def same(a, b, mode='exact', path='$'):
 
 
 def _same_version(a, b):
-    """'02.0', '2.0' and '2.0.0' spell the same version (the printed form of a Version is normalised)."""
-    from . import refversion
+    """The printed form of a version keeps its groups and suffix as written; only leading zeros inside a
+    group are normalised ('02.0' prints as '2.0').  '2.0' and '2.0.0' compare equal as versions (C18) but
+    are different spellings, and a grid's declared version survives as written (C07)."""
+    import re
+    def norm(v):
+        m = re.match(r'^(\d[\d.]*)(.*)$', v)
+        if not m:
+            return None
+        return tuple(int(p or 0) for p in m.group(1).split('.')), m.group(2)   # an empty group reads as 0 ('2.' is 2.0)
     try:
-        return refversion.cmp(a, b) == 0
+        na, nb = norm(a), norm(b)
     except (ValueError, TypeError):
         return False
+    return na is not None and na == nb
 
 
 def _same_items(xa, xb, mode, path):
